@@ -114,6 +114,25 @@ def gen_lines(c, rng):
         if len(data) < (400000 if T else 60000):
             lines.append("syntax.parse - %s" % hx(data))
             lines.append("syntax.parse - %s" % hx(data.replace(b"\n", b"\r\n")))
+    # (4b) directed boundary cases
+    directed = [b"foo x:(tuple int 4294967294+1) = Foo;", b"foo x:(tuple int 4294967293+1) = Foo;", b"foo x:(tuple int 4294967295) = Foo;",
+                b"foo x:(tuple int 4294967296) = Foo;", b"foo x:(tuple int (1+(2+3))+4) = Foo;", b"foo x:(tuple int 1+) = Foo;",
+                b"foo x:(tuple int (1+int)) = Foo;", b"foo n:# x:n.4294967296?int = Foo;", b"foo n:# x:n.32?int = Foo;",
+                b"# x:int = Foo;", b"#12345678 = Foo;", b"foo#1234567 = Foo;", b"foo#123456789 = Foo;", b"foo #12345678 = Foo;",
+                b"---functions---\nfoo ? = Foo;", b"foo ? Foo;", b"foo ? = Foo", b"foo = _;", b"_ = Foo;", b"_foo = Foo;", b"__ = _;",
+                b"foo x:% = Foo;", b"foo x:%(a) = Foo;", b"---functions---\nfoo = (a b);", b"---functions---\nfoo = %a b;",
+                b"foo x:a<> = Foo;", b"foo x:a<b,> = Foo;", b"foo x:a<b c,d> = Foo;", b"foo x:a <b> = Foo;", b"foo x:(a) = Foo;",
+                b"foo x:() = Foo;", b"foo x:((a b)) = Foo;", b"foo [ = Foo;", b"foo x:*[int] = Foo;", b"foo x:n*int = Foo;",
+                b"foo x:(1+2)*[int] = Foo;", b"foo x:3* [ int ] = Foo;", b"foo {t:Type {n:#} = Foo;", b"foo {t:type} = Foo;",
+                b"foo {:Type} = Foo;", b"foo {t Type} = Foo;", b"foo = Foo", b"foo = ;", b"foo = Foo t 1;", b"@ foo = Foo;",
+                b"@read@write foo = Foo;", b"foo = a.b.c;", b"foo = A.B;", b"a.b.c = Foo;", b"foo x:!!int = Foo;", b"foo x:!n.0?int = Foo;",
+                b"foo x : n . 0 ? int = Foo ;", b"foo => Foo;", b"foo = > Foo;", b"foo x:int //c\r\n y:int\r\n= Foo;//d\r\n\r\n//e\r\nbar = Bar;",
+                b"\n\n// a\n\n// b\nfoo // c\n = Foo; // d\n // e\n---functions---\n//f\n", b"foo = Foo;;", b";", b"foo", b"foo =", b"---types---",
+                b"---types------functions---", b"--", b"- --types---"]
+    for d in directed:
+        d = d.replace(b"\\n", b"\n").replace(b"\\r", b"\r")
+        for fl in ("-", "b", "d"):
+            lines.append("syntax.parse %s %s" % (fl, hx(d)))
     # (5) console rendering in full (not only its CRC) for a sample of failing texts
     for _ in range(600 if T else 150):
         items = g.schema(2)
